@@ -52,6 +52,7 @@ def check(ctx):
   from . import c14 as _c14
   ctx.rule('C14.R2', 'shared with C14: the framed read loops advance by what was received and raise on an empty chunk (a peer that hangs up must surface as a fault; a loop that spins on b"" never yields and starves the hub, so no timer fires any more)')
   _c14.r2(ctx)
+  _c14.error_stack_kind(ctx, 'C01.R1')
   r7(ctx)
   r8(ctx)
   sch = prog.func('scales/timer_queue.py', 'TimerQueue.Schedule')
@@ -587,3 +588,20 @@ def r8(ctx):
     ctx.ob('C01.R8', g, 'parks behind open without a deadline timer', bool(armed),
            'the call is chained behind the open result with no timer armed at t+T', why)
   ctx.floor('C01.R8', 'parking paths in DispatchMethodCall', n, 1)
+  # a result that is created must be held by a name: `return AsyncResult(), None` hands out a result that nobody can ever complete, and whatever
+  # is chained behind it (the client's open result, a waiter) is parked for good
+  n_c = 0
+  for f in prog.all_funcs:
+    parents = {}
+    for p_ in ast.walk(f.node):
+      for ch in ast.iter_child_nodes(p_):
+        parents[id(ch)] = p_
+    for c in walk_no_nested(f.node):
+      if isinstance(c, ast.Call) and not c.args and not c.keywords and (dotted(c.func) or '').split('.')[-1] == 'AsyncResult':
+        n_c += 1
+        par = parents.get(id(c))
+        held = isinstance(par, ast.Assign) and par.value is c or (isinstance(par, ast.AnnAssign) and par.value is c) or (isinstance(par, ast.NamedExpr) and par.value is c)
+        ctx.ob('C01.R8', f, 'a new AsyncResult is bound to a name (someone can complete it)', held,
+               'AsyncResult() is created and handed on without anyone keeping a reference: it can never be set, so anything chained behind it waits for ever',
+               'every wait on the way of a call must be bounded by something that is eventually signalled; a fresh, unreferenced result never is')
+  ctx.floor('C01.R8', 'AsyncResult constructions in the package', n_c, 5)
